@@ -31,40 +31,48 @@ func logField(logged, key string) (string, bool) {
 	return rest[:j], true
 }
 
-// handleReal: the real handler's observable behaviour, canonicalised from what it logs
+// handleReal: the real handler's observable behaviour, canonicalised from what it logs. Only two pieces of the
+// log's wording are relied upon - the keys "decryptedBytes=" and "solar charger record=" in front of the two
+// values the property speaks about. Everything else is decided from structure: no plaintext logged means the
+// payload was dropped (which of the property's two reasons applies is read off the input, not off the message),
+// and a decode failure is recognised by the decoder's own error text for that plaintext appearing in the log.
 func handleReal(key, raw []byte) (out string, plain []byte, logged string) {
 	logged, panicked := ble.VerifHandle(key, raw, false)
 	if panicked {
 		return "PANIC", nil, logged
 	}
-	switch {
-	case strings.Contains(logged, "len(rawBytes) is to low"):
-		return "ignored", nil, logged
-	case strings.Contains(logged, "cannot create aes cipher"):
-		return "cipher-error", nil, logged
-	}
 	ph, ok := logField(logged, "decryptedBytes=")
 	if !ok {
+		switch {
+		case strings.Contains(logged, "record="):
+			return "record-without-plaintext", nil, logged
+		case len(raw) < 9:
+			return "ignored", nil, logged
+		case len(key) != 16 && len(key) != 24 && len(key) != 32:
+			return "cipher-error", nil, logged
+		}
 		return "no-plaintext-logged", nil, logged
 	}
 	plain = unHEX(strings.ToUpper(ph))
 	out = "plain:" + strings.ToUpper(ph)
-	switch {
-	case strings.Contains(logged, "solar charger record="):
-		i := strings.Index(logged, "solar charger record=")
+	rec, derr := bleparser.DecodeSolarChargeRecord(plain)
+	if i := strings.Index(logged, "solar charger record="); i >= 0 {
 		txt := strings.TrimSuffix(logged[i+len("solar charger record="):], "\n")
-		rec, err := bleparser.DecodeSolarChargeRecord(plain)
-		if err != nil || fmt.Sprintf("%#v", rec) != txt {
+		if derr != nil || fmt.Sprintf("%#v", rec) != txt {
 			return out + ";rec-differs-from-decoder:" + txt, plain, logged
 		}
 		return out + ";rec:" + strings.ReplaceAll(renderRecord(rec), ";", ","), plain, logged
-	case strings.Contains(logged, "cannot decode solar charger record"):
-		switch {
-		case strings.Contains(logged, "inp too short"):
-			return out + ";err:too-short", plain, logged
-		case strings.Contains(logged, "enum value does not exist"):
-			return out + ";err:invalid-enum", plain, logged
-		}
+	}
+	after := logged[strings.Index(logged, "decryptedBytes=")+len("decryptedBytes="):]
+	if nl := strings.Index(after, "\n"); nl >= 0 {
+		after = after[nl+1:]
+	} else {
+		after = ""
+	}
+	if len(raw) > 4 && raw[4] == 0x01 && derr != nil && strings.Contains(after, derr.Error()) {
+		return out + ";err:" + errKind(derr), plain, logged
+	}
+	if strings.TrimSpace(after) != "" && len(raw) > 4 && raw[4] == 0x01 {
 		return out + ";err:other", plain, logged
 	}
 	return out + ";none", plain, logged
